@@ -186,6 +186,19 @@ CHECKS["C10"] = dict(
          "policy, configuration field by field, overrides in effect, original directory untouched; error directories; load route.",
     technique="Lean 4 theorems over the store/restore decision model + fresh-process differential check of real restore()/load_checkpoint() against recorded saver states",
     ref="§8 C10", note="Hydra/OmegaConf/Orbax are runtime layers, observed through the correspondence only.")
+CHECKS["C11"] = dict(
+    text="Theorems over the filesystem-event model of a checkpoint directory (mkTmp, commit-by-rename, delStart, delDone): for every event "
+         "sequence accepted by the executable protocol recogniser and EVERY prefix of it (= crash point) the directory invariant holds - what "
+         "restore() would pick is a fully committed step, never a temporary directory, never a step that is being deleted - and if commit k is "
+         "in the prefix the restored label is >= k (never older than the last completed save); every save event is label-consistent (C12) and "
+         "resuming from a restored snapshot reaches the uninterrupted final state (C09). Partial: that Orbax/OS follow this protocol (content "
+         "complete before the rename, rename atomic, deletion only of older steps) is not proved; it is CHECKED on every run: the observed "
+         "operation log of the real run must be accepted by the recogniser. Tie: the real solve is SIGKILLed immediately before its N-th "
+         "filesystem operation (sampled N quick, every N thorough; sync and async) and at random wall-clock times; restore in a fresh process "
+         "must fail cleanly or return iteration = the model's latest label for that prefix with values bit-identical to the uninterrupted "
+         "trajectory, and continuing must reach the uninterrupted final state.",
+    technique="Lean 4 invariant proof over all prefixes of protocol-conforming filesystem event sequences + kill-point fault injection on the real checkpointed solve",
+    ref="§8 C11", note="Kill points are Python-level filesystem operations (mkdir/rename/unlink/rmdir of Orbax) plus wall-clock kills; writes inside the temporary directory by tensorstore (C++) are covered only as 'kill before the commit rename'.")
 PENDING = {}
 
 
